@@ -48,6 +48,7 @@ type Obl struct {
 	Inputs  []NamedVal
 	Heap0   map[string]*Term
 	KnownRegion string
+	Subs        []*Obl // per-return-site parts; the obligation holds iff all parts do
 }
 
 type Exec struct {
@@ -70,6 +71,8 @@ type Exec struct {
 	tagTypes    []types.Type
 	globConst   map[*ssa.Global]*Val
 	specDepth   int
+	TopRets     []edgeIn
+	TopRetVals  []Val
 }
 
 func NewExec(l *Loader, unit string) *Exec {
@@ -249,6 +252,9 @@ func (ex *Exec) runFunc(fn *ssa.Function, args []Val, bindings []Val, st *State,
 	fx.paramEnv = map[string]Val{}
 	fx.incoming[fn.Blocks[0]] = []edgeIn{{st: st, cond: st.Reach}}
 	fx.runRegion(fx.order, nil)
+	if top {
+		ex.TopRets, ex.TopRetVals = fx.rets, fx.retVals
+	}
 	// merge returns
 	out, err := mergeStates(fx.rets)
 	if err != nil {
@@ -467,6 +473,28 @@ func (fx *fnExec) havocLoop(lp *Loop, st *State, spec *LoopSpec) {
 		}
 	}
 	scan(fx.fn, lp.Blocks, 0)
+	// range iterators advanced inside the loop
+	for _, b := range fx.fn.Blocks {
+		if !lp.Blocks[b] {
+			continue
+		}
+		for _, in := range b.Instrs {
+			nx, ok := in.(*ssa.Next)
+			if !ok {
+				continue
+			}
+			it, ok := st.Regs[nx.Iter]
+			if !ok || it.Tuple == nil {
+				continue
+			}
+			np := Fresh(fmt.Sprintf("L%d_rangepos", lp.Ordinal), BV64)
+			x := it.Tuple[0]
+			if len(x.C) >= 3 {
+				fx.ex.assume(st, And(BVSle(BVI(0, 64), np), BVSle(np, x.C[2])))
+			}
+			st.Regs[nx.Iter] = Val{T: it.T, Tuple: []Val{x, intVal(np)}}
+		}
+	}
 	var names []string
 	byName := map[string]*ssa.Alloc{}
 	for a := range allocs {
